@@ -303,7 +303,14 @@ def run(ctx):
     cfgs = [""] + [cfggen.random_any_config(ctx.rng, unc) for _ in range(11 if quick else 60)]
     cfgs += ["cmt_convert_tab_to_spaces=true\ncmt_indent_multi=true\n", "nl_max=1\neat_blanks_after_open_brace=true\neat_blanks_before_close_brace=true\n",
              "align_var_def_span=3\nalign_assign_span=2\nindent_columns=2\nindent_with_tabs=0\n", "newlines=crlf\ncode_width=20\n",
-             "mod_pawn_semicolon=true\n"]
+             "mod_pawn_semicolon=true\n",
+             # the options that delete line breaks or add tokens next to whatever stands there
+             "nl_remove_extra_newlines=2\n", "nl_remove_extra_newlines=1\n",
+             "nl_create_list_one_liner=true\nnl_create_func_def_one_liner=true\nnl_create_if_one_liner=true\nnl_create_for_one_liner=true\nnl_create_while_one_liner=true\n",
+             "mod_enum_last_comma=add\nmod_full_brace_if=add\nmod_full_brace_for=add\nmod_full_brace_while=add\nmod_paren_on_return=add\n",
+             "mod_enum_last_comma=remove\nmod_full_brace_if=remove\nmod_remove_extra_semicolon=true\nmod_remove_empty_return=true\n",
+             "nl_squeeze_ifdef=true\nnl_squeeze_paren_close=true\nnl_max=2\nnl_after_brace_open=true\nnl_after_brace_close=true\n",
+             cfggen.all_iarf(unc, "nl_", "remove"), cfggen.all_iarf(unc, "nl_", "force")]
     jobs = []
     allseq = gen + extra
     if quick:
